@@ -12,8 +12,33 @@ def _ret(st, ins, v):
         st.frames[-1].regs[ins['reg']] = v
 
 
+def vector_value(eng, st, name, tid):
+    """concrete execution of a replay vector inside the engine (translator validation / debugging)"""
+    vec = eng.opts.get('vector')
+    if vec is None:
+        return None
+    i = st.ghost.get('vec_pos', 0)
+    if i >= len(vec) or vec[i]['name'] != name:
+        raise PathEnd('vector-out-of-step')
+    st.ghost['vec_pos'] = i + 1
+    t = eng.ut(tid)
+    b = int(vec[i]['bits'])
+    from .engine import wrap, from_bits64, from_bits32
+    if t['k'] == 'int':
+        v = wrap(b, t['bits'], t['signed'])
+    elif t['k'] == 'float':
+        v = from_bits64(b) if t['bits'] == 64 else from_bits32(b)
+    else:
+        v = bool(b)
+    st.nondet.append((name, tid, v))
+    return v
+
+
 def new_symbol(eng, st, name, tid):
     t = eng.ut(tid)
+    cv = vector_value(eng, st, name, tid)
+    if cv is not None:
+        return cv
     eng.nsym += 1
     uname = '%s!%d' % (name, eng.nsym)
     if eng.value_mode:
@@ -42,6 +67,11 @@ def i_intrange(eng, st, fr, fn, args, ins):
     name, lo, hi = args
     tid = fn['results'][0]
     v = new_symbol(eng, st, name, tid)
+    if not is_sym(v):
+        if is_sym(lo) or is_sym(hi) or not (lo <= v <= hi):
+            raise PathEnd('assume-false')
+        _ret(st, ins, v)
+        return
     if not is_sym(lo) and not is_sym(hi) and z3.is_bv(v):
         if lo > hi:
             raise PathEnd('assume-false')
@@ -79,6 +109,12 @@ def i_pick(eng, st, fr, fn, args, ins):
     if lo > hi:
         raise PathEnd('assume-false')
     tid = fn['results'][0]
+    if eng.opts.get('vector') is not None:
+        v = vector_value(eng, st, name, tid)
+        if not (lo <= v <= hi):
+            raise PathEnd('assume-false')
+        _ret(st, ins, v)
+        return
     conts = []
     for c in range(lo, hi + 1):
         s = st if c == hi else st.clone()
@@ -168,6 +204,11 @@ def i_choice(eng, st, fr, fn, args, ins):
     name, n = args
     tid = fn['results'][0]
     v = new_symbol(eng, st, name, tid)
+    if not is_sym(v):
+        if not (0 <= v < n):
+            raise PathEnd('assume-false')
+        _ret(st, ins, v)
+        return
     assume(eng, st, z3.And(v >= 0, v < bv(n, 64)))
     conts = []
     for c, s in eng.concretize(st, v, 64, True, what='vf.Choice'):
